@@ -147,7 +147,7 @@ Canon(o) ==
     [] o.k = "Plane"      -> [k |-> "Plane", c |-> PlaneCanon(o.p, o.n)]
     [] o.k = "Polygon"    -> [k |-> "Polygon", c |-> Range(o.cyc)]
     [] o.k = "Polyhedron" -> [k |-> "Polyhedron", c |-> o.vs]
-SameSet(a, b) == Canon(a) = Canon(b)
+SameSet(a, b) == a.k = b.k /\ Canon(a) = Canon(b)     \* (kinds first: TLC cannot compare a tuple with a set)
 
 ---------------------------------------------------------------------------
 \* Translation by an integer vector
